@@ -3,7 +3,7 @@ from . import has_class
 CFG = {
     "harness": ["v1", "v2"],
     "functional": ["C04.exec"],
-    "required_classes": ["exec", "err-no-filetype", "err-conflict", "err-hook", "err-unknown-filetype", "err-assemble", "multi-file",
+    "required_classes": ["hooks-reorder-the-order-they-were-handed", "exec", "err-no-filetype", "err-conflict", "err-hook", "err-unknown-filetype", "err-assemble", "multi-file",
                          "shared-file", "targets-continue", "silent-generator", "context-without-file-types", "file-name-with-directory", "thirteen-or-more-generators"],
     "rule": "random configurations of 0-3 targets x 0-4 recording generators x 0-4 types: per-target and per-generator filters, namer overrides (nil, overriding a context namer, private names), colliding file names, empty/unknown/conflicting file types, failing file assembly, vars/consts/body/imports contributions, a quarter of the configurations with failing hooks; observable = the exact sequence of hook calls with the Order and the Namers each hook saw, the files handed to the file type, the error class; each configuration is run target by target and once through ExecutePackages/ExecuteTargets; non-trivial = input longer than 12 characters",
     "exhaustive": [],
